@@ -4,6 +4,13 @@ import PV.Spec.Utf8
 import PV.Spec.Utf8Dec
 import PV.Model.Base64
 import PV.Model.Docenc
+import PV.Model.Murmur
+import PV.Spec.Murmur
+import PV.Model.Fields
+import PV.Spec.Fields
+import PV.Model.Table
+import PV.Spec.Map
+import PV.Spec.TableInv
 import PV.Spec.Base64
 /-
 One function per unit: `List String` (the operation's arguments) to one output line.
@@ -75,6 +82,126 @@ def docenc (op : String) (args : List String) : String :=
     | _, _ => "bad-op"
   | _, _ => "bad-op"
 
+def murmur (op : String) (args : List String) : String :=
+  match op, args with
+  | "hash", [seed, h, _align] =>
+    match seed.toNat?, unhex h with
+    | some sd, some bs => match PV.Murmur.hash64A? bs.toArray (UInt64.ofNat sd) with
+      | some v => s!"ok {v.toNat}"
+      | none => "OOB"
+    | _, _ => "bad-op"
+  | "native", [seed, h, _align] =>
+    match seed.toNat?, unhex h with
+    | some sd, some bs => s!"ok {(PV.Murmur.hash64A bs (UInt64.ofNat sd)).toNat}"
+    | _, _ => "bad-op"
+  | "spec.hash", [seed, h, _align] =>
+    match seed.toNat?, unhex h with
+    | some sd, some bs => s!"ok {(PV.Spec.Murmur.murmurRef bs (UInt64.ofNat sd)).toNat}"
+    | _, _ => "bad-op"
+  | _, _ => "bad-op"
+
+def rangesStr (rs : List PV.Fields.FieldRange) : String :=
+  if rs.isEmpty then "ok -" else "ok " ++ ",".intercalate (rs.map (fun f => s!"{f.begin}:{f.stop}"))
+
+def parseRanges (s : String) : Option (List PV.Fields.FieldRange) :=
+  if s == "-" then some [] else
+  (s.splitOn ",").mapM (fun it => match it.splitOn ":" with
+    | [a, b] => match a.toNat?, b.toNat? with
+      | some a, some b => some ⟨a, b⟩
+      | _, _ => none
+    | _ => none)
+
+def piecesStr (ps : List (List UInt8)) : String :=
+  s!"ok {ps.length}" ++ String.join (ps.map (fun p => " " ++ hex p))
+
+def fields (op : String) (args : List String) : String :=
+  match op, args with
+  | "parse", [h] =>
+    match unhex h with
+    | some s => match PV.Fields.parseFields s with
+      | some rs => rangesStr rs
+      | none => "ERR:badfield"
+    | none => "bad-op"
+  | "parsedefrag", [h] =>
+    match unhex h with
+    | some s => match PV.Fields.parseAndDefragment s with
+      | some rs => rangesStr rs
+      | none => "ERR:badfield"
+    | none => "bad-op"
+  | "spec.parse", [h] =>
+    match unhex h with
+    | some s => match PV.Spec.Fields.cutParse s with
+      | some its => rangesStr (its.map PV.Spec.Fields.Item.denote)
+      | none => "ERR:badfield"
+    | none => "bad-op"
+  | "range", [l, d, rs] =>
+    match unhex l, unhex d, parseRanges rs with
+    | some line, some [dl], some rs => piecesStr (PV.Fields.rangeFields line rs dl)
+    | _, _, _ => "bad-op"
+  | "indiv", [l, d, rs] =>
+    match unhex l, unhex d, parseRanges rs with
+    | some line, some [dl], some rs => piecesStr (PV.Fields.individualFields line rs dl)
+    | _, _, _ => "bad-op"
+  | "spec.range", [l, d, rs] =>
+    match unhex l, unhex d, parseRanges rs with
+    | some line, some [dl], some rs => piecesStr (PV.Spec.Fields.cutSelect rs dl line)
+    | _, _, _ => "bad-op"
+  | "spec.indiv", [l, d, rs] =>
+    match unhex l, unhex d, parseRanges rs with
+    | some line, some [dl], some rs => piecesStr (rs.flatMap (PV.Spec.Fields.selected (PV.Spec.Fields.splitFields dl line)))
+    | _, _, _ => "bad-op"
+  | _, _ => "bad-op"
+
+def parseTableOps (s : String) : Option (List PV.Table.Op) :=
+  ((s.splitOn ",").filter (· ≠ "")).mapM (fun o => match o.splitOn ":" with
+    | ["i", k, v] => match k.toNat?, v.toNat? with
+      | some k, some v => some (PV.Table.Op.insert k v)
+      | _, _ => none
+    | ["f", k] => k.toNat?.map PV.Table.Op.find
+    | _ => none)
+
+def ansStr : PV.Table.Ans → String
+  | .inserted true e => s!"t:{e.2}"
+  | .inserted false e => s!"n:{e.2}"
+  | .found (some e) => s!"{e.2}"
+  | .found none => "-"
+
+/-- run ops one at a time so that the bucket count after every op can be printed. -/
+def tableRun (t : PV.Table.Table) : List PV.Table.Op → List String → Option (List String × PV.Table.Table)
+  | [], acc => some (acc.reverse, t)
+  | op :: ops, acc =>
+    match PV.Table.step t op with
+    | none => none
+    | some (a, t') => tableRun t' ops (s!"{ansStr a}|{t'.buckets}" :: acc)
+
+def specRun (m : PV.Spec.Map.M) : List PV.Table.Op → List String → List String
+  | [], acc => acc.reverse
+  | op :: ops, acc =>
+    let (a, m') := PV.Spec.Map.step m op
+    specRun m' ops (ansStr a :: acc)
+
+def table (op : String) (args : List String) : String :=
+  match op, args with
+  | "run", ops :: rest =>
+    match parseTableOps ops with
+    | some ops => match tableRun PV.Table.init ops [] with
+      | some (out, t) =>
+        let base := "ok" ++ String.join (out.map (" " ++ ·))
+        if rest == ["layout"] then
+          base ++ " L" ++ String.join (t.slots.toList.map (fun e => s!" {e.1}:{if e.1 == 0 then 0 else e.2}"))
+        else base
+      | none => "DIVERGED"
+    | none => "bad-op"
+  | "spec.run", [ops] =>
+    match parseTableOps ops with
+    | some ops => "ok" ++ String.join ((specRun [] ops []).map (" " ++ ·))
+    | none => "bad-op"
+  | "inv", keys =>     -- the implementation's real bucket keys
+    match keys.mapM String.toNat? with
+    | some ks => if PV.Spec.TableInv.check ks.toArray then "inv-ok" else "inv-broken"
+    | none => "bad-op"
+  | _, _ => "bad-op"
+
 def dispatch (line : String) : String :=
   match words line with
   | [] => "bad-op"
@@ -84,6 +211,12 @@ def dispatch (line : String) : String :=
     | ["utf8", "spec", op] => utf8 ("spec." ++ op) args
     | ["b64", op] => b64 op args
     | ["docenc", op] => docenc op args
+    | ["murmur", op] => murmur op args
+    | ["murmur", "spec", op] => murmur ("spec." ++ op) args
+    | ["fields", op] => fields op args
+    | ["fields", "spec", op] => fields ("spec." ++ op) args
+    | ["table", op] => table op args
+    | ["table", "spec", op] => table ("spec." ++ op) args
     | ["b64", "spec", op] => b64 ("spec." ++ op) args
     | _ => "bad-op"
 
